@@ -49,12 +49,31 @@ Definition C07_proof_sound_statement : Prop :=
   (exists n', trie_get d n kb = Ok (v, n')) \/ collision.
 
 (** streaming trie: for strictly increasing, prefix-free keys and non-empty values the stack
-    trie computes the root of the canonical trie *)
+    trie does not panic and computes the root of the canonical trie [build] *)
+Fixpoint klt (a b : key) : Prop :=
+  match a, b with
+  | _, [] => False
+  | [], _ :: _ => True
+  | x :: a', y :: b' => x < y \/ (x = y /\ klt a' b')
+  end.
+
+Definition sorted_prefix_free (kvs : list (bytes * bytes)) : Prop :=
+  forall i j a b, i < j -> nth_error kvs i = Some a -> nth_error kvs j = Some b ->
+    klt (keybytes_to_hex (fst a)) (keybytes_to_hex (fst b)) /\
+    forall r, fst b <> fst a ++ r.
+
 Definition C07_stack_equals_statement : Prop :=
   forall kvs : list (bytes * bytes),
   Forall (fun kv => is_bytes (fst kv) /\ snd kv <> []) kvs ->
-  (forall i j a b, i < j -> nth_error kvs i = Some a -> nth_error kvs j = Some b ->
-                   forall r, keybytes_to_hex (fst b) <> removelast (keybytes_to_hex (fst a)) ++ r \/ True) ->
-  stack_root H kvs = Some (build_root H kvs) \/ stack_root H kvs = None.
+  sorted_prefix_free kvs ->
+  stack_root H kvs = Some (build_root H kvs).
+
+(** the canonical constructor agrees with the operational trie *)
+Definition C07_build_canonical_statement : Prop :=
+  forall d ops n, Forall (fun o => is_bytes (mop_key o)) ops -> run d Empty ops = Ok n ->
+  forall m : list (key * bytes),
+    NoDup (map fst m) ->
+    (forall k w, has n k w <-> In (k, w) m) ->
+    erase n = erase (build (build_fuel m) m).
 
 End Open.
